@@ -44,10 +44,12 @@ func (inv *IndexInvertedString) InsertUpdateDelete(ctx context.Context, in <-cha
 
 func (inv *IndexInvertedString) Search(options models.SearchStringOptions) (*roaring64.Bitmap, error) {
 	query := options.Value
+	endQuery := options.EndValue
 	if !inv.params.CaseSensitive {
 		query = strings.ToLower(query)
+		endQuery = strings.ToLower(endQuery)
 	}
-	return inv.inner.Search(query, options.EndValue, options.Operator)
+	return inv.inner.Search(query, endQuery, options.Operator)
 }
 
 // ---------------------------
